@@ -127,10 +127,16 @@ def argNames : Core3.Arg → List Bytes
   | .tyvals ixs => ixs.flatMap fun p => Core2.tyNames p.1 ++ (match p.2 with | .const c => Core2.constNames c | _ => [])
   | _ => []
 
+def extNames : Core3.Ext → List Bytes
+  | .cases cs => cs.flatMap fun c => Core2.tyNames c.1 ++ Core2.constNames c.2.1
+  | .clauses _ cs => cs.flatMap fun c => Core2.tyNames c.2.1 ++ (match c.2.2 with | .const k => Core2.constNames k | _ => [])
+  | _ => []
+
 /-- the named types a function definition mentions -/
 def funcNames (f : Core3.Func) : List Bytes :=
   Core2.tyNames f.ret ++ f.params.flatMap (fun p => Core2.tyNames p.1) ++
-    f.blocks.flatMap fun b => (Core3.instsOf b).flatMap fun i => i.args.flatMap argNames
+    f.blocks.flatMap fun b => (Core3.instsOf b).flatMap fun i =>
+      i.args.flatMap argNames ++ extNames i.ext
 
 def lineName : Core2.Line → Option Bytes
   | .typedef tok _ => Core2.decodeTypedefName tok
